@@ -5,6 +5,7 @@ from django.template import Context, Template
 
 from django_components import Component, ComponentRegistry, NotRegistered, types
 from django_components.component_registry import all_registries
+from django_components.util.context import snapshot_context
 
 
 class DynamicComponent(Component):
@@ -116,6 +117,10 @@ class DynamicComponent(Component):
             "comp_class": comp_class,
             "args": args,
             "kwargs": kwargs,
+            # NOTE: The inner component is rendered only later (see `on_render_before`). By then the live
+            # `self.input.context` may have already left the scopes (e.g. `{% provide %}` or `{% with %}`)
+            # that surrounded the tag. So we keep a snapshot of the Context as it is now.
+            "input_context": snapshot_context(self.input.context),
         }
 
     # NOTE: The inner component is rendered in `on_render_before`, so that the `Context` object
@@ -133,7 +138,7 @@ class DynamicComponent(Component):
             registry=self.registry,
         )
         output = comp.render(
-            context=self.input.context,
+            context=context["input_context"],
             args=args,
             kwargs=kwargs,
             slots=self.input.slots,
